@@ -97,6 +97,14 @@ func (t *TrakBox) Info(w io.Writer, specificBoxLevels, indent, indentStep string
 }
 
 // GetNrSamples - get number of samples for this track defined in the parent moov box.
+// getStbl returns the sample table box, or nil if the trak lacks mdia, minf or stbl.
+func (t *TrakBox) getStbl() *StblBox {
+	if t == nil || t.Mdia == nil || t.Mdia.Minf == nil {
+		return nil
+	}
+	return t.Mdia.Minf.Stbl
+}
+
 func (t *TrakBox) GetNrSamples() uint32 {
 	stbl := t.Mdia.Minf.Stbl
 	return stbl.Stsz.GetNrSamples()
